@@ -43,30 +43,37 @@ fn parts_for(prop: &str, tier: Tier) -> Vec<Box<dyn explore::Harness>> {
     };
     match prop {
         "C01" => vec![c(CProp::C01)],
+        // (cheap parts first: each part gets an equal share of the wall cap that is LEFT)
         "C02" => vec![
-            c(CProp::C02),
-            s(SProp::C02),
-            hc(chain_props::HProp::C02),
             Box::new(burst::BurstHarness { prop: "C02", cfgs: burst::configs_many(burst::Side::ClientManyCalls, tier == Tier::Thorough) }),
+            hc(chain_props::HProp::C02),
+            s(SProp::C02),
+            c(CProp::C02),
         ],
         "C03" => vec![c(CProp::C03)],
-        "C04" => vec![s(SProp::C04), hc(chain_props::HProp::C04)],
+        "C04" => vec![
+            // abandoning many calls in one step cancels every one of them (bursts; the sizes
+            // enumerated for C11)
+            Box::new(burst::BurstHarness { prop: "C04", cfgs: burst::configs(tier == Tier::Thorough).into_iter().filter(|c| c.side != burst::Side::Server).collect() }),
+            hc(chain_props::HProp::C04),
+            s(SProp::C04),
+        ],
         "C05" => vec![c(CProp::C05)],
         "C06" => vec![
-            s(SProp::C06),
             Box::new(burst::BurstHarness { prop: "C06", cfgs: burst::configs_many(burst::Side::ServerManyExpire, tier == Tier::Thorough) }),
+            s(SProp::C06),
         ],
         "C08" => vec![
-            s(SProp::C08),
             // "at most one response ... only if the handler finished before the request expired":
             // the expiry bursts of C06 judge exactly that
             Box::new(burst::BurstHarness { prop: "C08", cfgs: burst::configs_many(burst::Side::ServerManyExpire, tier == Tier::Thorough) }),
+            s(SProp::C08),
         ],
         "C10" => vec![c(CProp::C10), s(SProp::C10)],
         "C11" => vec![
+            Box::new(burst::BurstHarness { prop: "C11", cfgs: burst::configs(tier == Tier::Thorough) }),
             c(CProp::C11),
             s(SProp::C11),
-            Box::new(burst::BurstHarness { prop: "C11", cfgs: burst::configs(tier == Tier::Thorough) }),
         ],
         "C12" => vec![s(SProp::C12)],
         "C14" => vec![c(CProp::C14), s(SProp::C14)],
